@@ -230,3 +230,46 @@ Example C05_drag_exception :
     [EvIn (p ++ [32]); EvDrag 0; EvOut [94;67]; EvDrag 0; EvOut [116;114;122;32;45;100;13;10]; EvOut [36]; EvDrag 0; EvIn [120]]
   = [ToServer [3]; ToServer [116;114;122;32;45;100;13]; ToTerm [13;10]; ToTerm [36]; ToServer [120]].
 Proof. vm_compute. reflexivity. Qed.
+
+(* ---- the premise "prompt s1 = false" of C05_after_session cannot be dropped: a session that
+        ends by itself while the stop prompt is open leaves the prompt in charge of the keyboard.
+        Witness: trigger, handler takes the session, ctrl-C (prompt opens), the transfer fails,
+        then a key is typed: every handler has ended, no session, yet nothing reaches the
+        server.  Reproduced on the real filter by the history "stop-prompt-open-server-fails"
+        (KNOWN_FINDINGS.txt). ---- *)
+Definition C05_after_session_without_prompt_premise : Prop :=
+  forall dstate trigger detect trig_prompts zmodem_detect zstate zm_init zm_handle zm_busy zm_stop
+         drag_detect msg_on msg_off is_stop_key o,
+  (forall d c c' d', detect d c = ((c', None), d') -> c' = c) ->
+  forall es1 (s0 s1 : state dstate zstate) ob1,
+  idle s0 = true ->
+  run dstate trigger detect trig_prompts zmodem_detect zstate zm_init zm_handle zm_busy zm_stop
+      drag_detect msg_on msg_off is_stop_key o s0 es1 = (s1, ob1) ->
+  handlers s1 = [] -> drag_procs s1 = [] -> held s1 = None -> zmodem s1 = None -> skip_cmd s1 = false ->
+  idle s1 = true.
+
+Definition wit_detect (d : unit) (c : list N) : (list N * option unit) * unit :=
+  if list_eqb c [1] then ((c, Some tt), d) else ((c, None), d).
+
+Theorem C05_after_session_needs_prompt_closed_refuted : ~ C05_after_session_without_prompt_premise.
+Proof.
+  intros H.
+  specialize (H unit unit wit_detect (fun _ => true) (fun _ => false) unit (fun _ => tt) (fun z _ => (true, z))
+                (fun _ => true) (fun z => z) (fun _ => dres_none) [] [] (fun c => list_eqb c [3]) ex_opts).
+  assert (Hs : forall d c c' d', wit_detect d c = ((c', None), d') -> c' = c).
+  { intros d c c' d'. unfold wit_detect. destruct (list_eqb c [1]); intros X; inversion X; reflexivity. }
+  specialize (H Hs [EvOut [1]; EvHandler 0 HAccept; EvIn [3]; EvHandler 0 HError] (init unit unit tt)).
+  match type of H with forall s1 ob1, _ -> ?r = _ -> _ => remember r as R eqn:ER end.
+  vm_compute in ER. destruct R as [s1 ob1]. specialize (H s1 ob1 eq_refl eq_refl).
+  inversion ER; subst s1 ob1; clear ER.
+  specialize (H eq_refl eq_refl eq_refl eq_refl eq_refl). vm_compute in H. discriminate H.
+Qed.
+Print Assumptions C05_after_session_needs_prompt_closed_refuted.
+
+(* and in that state typed input does not reach the server *)
+Example C05_prompt_swallows_keys :
+  server_writes (snd (run unit unit wit_detect (fun _ => true) (fun _ => false) unit (fun _ => tt) (fun z _ => (true, z))
+                          (fun _ => true) (fun z => z) (fun _ => dres_none) [] [] (fun c => list_eqb c [3]) ex_opts
+                          (init unit unit tt)
+                          [EvOut [1]; EvHandler 0 HAccept; EvIn [3]; EvHandler 0 HError; EvIn [120]])) = [].
+Proof. vm_compute. reflexivity. Qed.
